@@ -191,7 +191,7 @@ _EXT: t.Dict[str, t.Any] = {}
 
 def ext_cases(shard: int, nshards: int) -> t.Iterator[t.Any]:
     i = 0
-    for kind in ('union-constructor', 'raising-default-factory', 'sized-sequence-type', 'validating-sequence-type'):
+    for kind in ('union-constructor', 'raising-default-factory', 'sized-sequence-type', 'validating-sequence-type', 'temporal-subclass-objects'):
         for vi in range(6):
             for where in ('bare', 'List', 'Optional'):
                 if i % nshards == shard:
@@ -227,6 +227,13 @@ def check_extension(case: t.Any, ctx: Ctx) -> None:
                         return cls(val)
                     return UnionConverter((D.date, str), constructor=build, **({'handlers': handlers} if handlers is not None else {}))
             _EXT[kind] = Deadline
+        elif kind == 'temporal-subclass-objects':
+            # date / time objects of a subclass (what YAML loaders and date libraries hand out), to each of the three targets
+            Stamp = type('Stamp', (D.datetime,), {})
+            Day = type('Day', (D.date,), {})
+            Clock = type('Clock', (D.time,), {})
+            _EXT[kind] = [(Stamp(2024, 1, 2, 3, 4, 5), D.datetime), (Stamp(2024, 1, 2, 3, 4, 5), D.date), (Stamp(2024, 1, 2, 3, 4, 5), D.time),
+                          (Day(2024, 1, 2), D.date), (Day(2024, 1, 2), D.datetime), (Clock(3, 4, 5), D.time)]
         elif kind == 'sized-sequence-type':
             class Vec3(tuple):  # type: ignore[type-arg]
                 """A sequence type of the user's whose constructor wants something with a length: the one-shot iterator the
@@ -253,11 +260,14 @@ def check_extension(case: t.Any, ctx: Ctx) -> None:
             _EXT[kind] = type('Job', (pane.PaneBase,), {'__annotations__': {'name': str, 'queue': str}, 'queue': pane.field(default_factory=factory)},
                               in_format=('struct', 'tuple'))
     X = _EXT[kind]
+    if kind == 'temporal-subclass-objects':
+        (tv, X) = X[vi]
     _EXT['factory-fails'] = True        # (the class is defined by now: pane evaluates the factory once for the signature)
     v = {'union-constructor': ['2024-05-06', '1999-12-31', 'whenever', 5, None, ''],
          'raising-default-factory': [{'name': 'b'}, {'name': 'b', 'queue': 'q'}, ['b'], ['b', 'q'], {'name': 5}, {}],
          'sized-sequence-type': [[1.0, 2.0, 3.0], [1, 2], [], 'abc', (1, 2, 3), [1, 2, 3, 4]],
-         'validating-sequence-type': [[1, 2, 3], [3, 1], [], [2, 2], 5, (9, 1, 1)]}[kind][vi]
+         'validating-sequence-type': [[1, 2, 3], [3, 1], [], [2, 2], 5, (9, 1, 1)],
+         'temporal-subclass-objects': [tv if kind == 'temporal-subclass-objects' else None] * 6}[kind][vi]
     (T, data) = {'bare': (X, v), 'List': (t.List[X], [v]), 'Optional': (t.Optional[X], v)}[where]
     ctx.label(kind, where)
     ctx.nontrivial(True)
@@ -265,7 +275,9 @@ def check_extension(case: t.Any, ctx: Ctx) -> None:
     ctx.evaluated(3)
     fast = outcome(lambda: conv.try_convert(data))
     diag = outcome(lambda: conv.collect_errors(data))
-    full = outcome(lambda: pane.from_data(data, T))
+    # (from_data first asks whether the root is interchange data at all, and a date object of a subclass is not: the converter's own
+    # convert() is the entry point there)
+    full = outcome(lambda: conv.convert(data)) if kind == 'temporal-subclass-objects' else outcome(lambda: pane.from_data(data, T))
     fast_ok = fast[0] == 'ok'
     fast_refused = fast[0] != 'ok' and isinstance(fast[1], ParseInterrupt)
     ident = f"{kind} ({where}) given {short(data, 60)}"
